@@ -331,7 +331,10 @@ def apply_op(pool, op, ctx, prefix="c09"):
             i = n - 1
         else:
             i = min(n - 1, int(op["pos"] * n))
-            guarded(prefix, "pop(%d)" % i, R[o].pop, i)
+            arg = i - n if op.get("negative") else i          # counting from the end, as with lists
+            if op.get("negative"):
+                ctx.count("pop_counting_from_the_end")
+            guarded(prefix, "pop(%d)" % arg, R[o].pop, arg)
         M[o].delete([i])
         return {o}
     if kind == "translate":
@@ -485,6 +488,25 @@ def _op_replace(pool, op, ctx, prefix):
     ff["positions"] = rp
     from mofun import Atoms
     search = Atoms(elements=pel, positions=P)
+    if op.get("empty"):
+        # replacing by nothing = deleting every atom of every selected occurrence, once - also where occurrences share atoms
+        sp = {"cell": cell.tolist(), "pattern": {"elements": pel, "positions": P.tolist()}, "replace": {"elements": [], "positions": []},
+              "fraction": op.get("fraction", 1.0), "replace_all": False, "atol": atol, "hints": None}
+        run = replcheck.run_replace(ctx, R[s], search, Atoms(), sp, op.get("script") or {"choice": {"kind": "first"}, "sample": {"kind": "first"}, "seed": 1})
+        if run.exc is not None:
+            raise Violation("raises:%s" % type(run.exc).__name__, "replacing by an empty pattern inside a history: %s" % run.exc, site="replace")
+        if run.found is None or len(run.selected) != run.reported:
+            return set()
+        gone = sorted(set(i for k in run.selected for i in run.found[0][k]))
+        exp = m.clone()
+        exp.delete(gone)
+        refmodel.structural_invariants(run.result, "replace by nothing (history)")
+        if len(exp.atoms) == 0:
+            ctx.count("all_atoms_deleted")
+        ctx.count("history_empty_replacements", run.reported)
+        if len(gone) < sum(len(run.found[0][k]) for k in run.selected):
+            ctx.count("history_empty_replacements_sharing_atoms")
+        return {pool.add(run.result, exp)}
     replace = guarded(prefix, "constructor", build_real, ff)
     Rmod = RefAtoms.from_spec(ff)
     pattern = {"elements": pel, "positions": P.tolist()}
@@ -538,7 +560,7 @@ def gen_ops(rng, nobj, nops, cfg, weights=None):
         elif k == "delete_all":
             ops.append({"op": "delete_all", "obj": rng.randrange(cur), "reverse": rng.random() < 0.5, "container": "list"})
         elif k == "pop":
-            ops.append({"op": "pop", "obj": rng.randrange(cur), "pos": None if rng.random() < 0.5 else rng.random()})
+            ops.append({"op": "pop", "obj": rng.randrange(cur), "pos": None if rng.random() < 0.5 else rng.random(), "negative": rng.random() < 0.4})
         elif k == "translate":
             ops.append({"op": "translate", "obj": rng.randrange(cur), "delta": [rng.uniform(-3, 3) for _ in range(3)]})
         elif k == "extend":
@@ -555,7 +577,7 @@ def gen_ops(rng, nobj, nops, cfg, weights=None):
                               positions=[[0.0, 0.0, float(i)] for i in range(nr)], label_scheme=None)
             ops.append({"op": "replace", "src": rng.randrange(cur), "picks": [rng.random() for _ in range(3)], "R": geom.random_rotation(rng).tolist(),
                         "t": [rng.uniform(-5, 5) for _ in range(3)], "ff": ff, "fraction": rng.choice([1.0, 1.0, 0.5]),
-                        "offsets": [[rng.uniform(-1.5, 1.5) for _ in range(3)] for _ in range(3)], "disjoint": rng.random() < 0.2,
+                        "offsets": [[rng.uniform(-1.5, 1.5) for _ in range(3)] for _ in range(3)], "disjoint": rng.random() < 0.2, "empty": rng.random() < 0.2,
                         "script": {"choice": {"kind": rng.choice(["first", "last", "mt"])}, "sample": {"kind": rng.choice(["first", "last", "mt"])}, "seed": rng.getrandbits(20)}})
             cur += 1
         elif k == "assign":
@@ -563,7 +585,8 @@ def gen_ops(rng, nobj, nops, cfg, weights=None):
                         "suffix": "_v%d" % rng.randint(1, 9), "as_list": rng.random() < 0.7, "values": [round(rng.uniform(-2, 2), 4) for _ in range(5)]})
         elif k == "restart":
             ops.append({"op": "restart", "obj": rng.randrange(cur), "style": rng.choice(["full", "full", "atomic"]),
-                        "via": rng.choice(["path", "file", "save_lmpdat"]), "fault": None, "keep": rng.random() < 0.5})
+                        "via": rng.choice(["path", "file", "save_lmpdat"]), "fault": None, "keep": rng.random() < 0.5,
+                        "pathkind": rng.choice(["std", "std", "odd_ext", "pathlib"]), "same_handle": rng.random() < 0.3})
     return ops
 
 
